@@ -1,2 +1,4 @@
 -- family dedup: C01 C02 C04 C40.  Everything listed here must build: it is part of `lake build`.
 import Thanos.Driver.Dedup
+import Thanos.Props.C01
+import Thanos.Props.C02
